@@ -60,11 +60,22 @@ def rule_control(facts):
     c2 = cfg(p)
     g = None
     for (bb, t, z, nz) in gs2:
-        s = pat.cmp_sides(t)
-        if s and s[0] in ("Eq", "Ne") and s[2] == ("const", 0):
-            x = pat.strip(s[1])
-            if x and x[0] == "BitAnd" and pat.has_arg(x, "status") and pat.has_const(x, 0x80) and not pat.has_op(x[1], ("Shr", "Shl")):
-                g = (bb, z if s[0] == "Ne" else nz, nz if s[0] == "Ne" else z)   # (block, edge when bit clear, edge when set)
+        # a two-way test on the status byte alone that separates status < 0x80 from status >= 0x80
+        # (evaluated for all 256 values: `status & 0x80 == 0`, `status < 0x80`, `status >> 7 == 0` ... are the same test)
+        if not pat.has_arg(t, "status") or pat.has_call(t, "read_"):
+            continue
+        try:
+            tv = [pat.eval_cmp(t, lambda q, v=v: v if (q[0] == "arg" and q[2] == "status") else (_ for _ in ()).throw(pat.NotEvaluable(q)))
+                  for v in range(256)]
+        except (pat.NotEvaluable, pat.Overflow):
+            continue
+        low = [v < 0x80 for v in range(256)]
+        if tv == low:
+            g = (bb, nz, z)      # (block, edge when bit clear, edge when set)
+        elif tv == [not x for x in low]:
+            g = (bb, z, nz)
+        if g:
+            break
     r.need("test of bit 7 of the status byte in parse_lzma", g is not None)
     if g:
         bb, clear_edge, set_edge = g
